@@ -173,7 +173,7 @@ def directed(rng: random.Random, n: int) -> List[Input]:
 
     for i in range(n):
         r = rng
-        k = i % 24
+        k = i % 25
         depth = r.choice([1, 2, 5, 20, 80, 200])
         digits = r.choice([1, 5, 19, 20, 100, 1000, 4299, 4300])
         name = r.choice(["M", "m", "type", "E1", "_x"])
@@ -208,7 +208,7 @@ def directed(rng: random.Random, n: int) -> List[Input]:
         elif k == 11:
             add("long-comment", "proto a\n//" + "c" * r.choice([100, 5000, 100000]) + "\nmessage M {}\n")
         elif k == 12:
-            d = r.choice([10, 60, 150, 300])
+            d = r.choice([10, 60, 150, 300])        # RecursionError starts at 496 (known finding recursion-depth)
             add("deep-nesting", "proto a\n" + "".join(f"message M{j} {{\n" for j in range(d)) + " uint3 x = 1\n"
                 + "}\n" * d)
         elif k == 13:
@@ -236,6 +236,10 @@ def directed(rng: random.Random, n: int) -> List[Input]:
         elif k == 21:
             add("import-twice", 'proto a\nimport "b.bitproto"\nimport ' + r.choice(["", "x "]) + '"'
                 + r.choice(["b.bitproto", "./b.bitproto", "sub/../b.bitproto"]) + '"\n', {"sub/keep.bitproto": "proto k\n"})
+        elif k == 24:
+            d = r.choice([5, 50, 200])
+            add("alias-chain", "proto a\ntype T0 = bool[1]\n" + "".join(f"type T{j} = T{j - 1}[1]\n" for j in range(1, d))
+                + f"message M {{ T{d - 1} t = 1 }}\n")
         elif k == 22:
             add("import-symlink-loop", 'proto a\nimport "loop.bitproto"\n', symlinks={"loop.bitproto": "loop.bitproto"})
         else:
@@ -283,6 +287,9 @@ def inside_known(rng: random.Random, n: int) -> List[Input]:
         ("non-utf8-source", b64(b"proto a\n// \xff\n")),
         ("non-utf8-source", b64(b"proto a\nconst S = \"\xc3\"\n")),
         ("nul-in-path", 'proto a\nimport "b\x00.bitproto"\n'),
+        ("recursion-depth", "proto a\n" + "".join(f"message M{j} {{\n" for j in range(600)) + "}\n" * 600),
+        ("recursion-depth", "proto a\ntype T0 = bool[1]\n" + "".join(f"type T{j} = T{j - 1}[1]\n" for j in range(1, 400))
+         + "message M { T399 t = 1 }\n"),
     ]
     for i in range(n):
         k, v = variants[i % len(variants)]
